@@ -93,6 +93,15 @@ def check(ctx):
             for k in range(per):
                 n = C.rng.randint(2 if name == 'brown' else 1, 7)
                 pts.append(('random', [C.rng.uniform(lo, hi) for _ in range(n)]))
+            ok_pts = []
+            for tag, x in pts:
+                try:
+                    float(fn(np.array(x, dtype=float)))
+                    ok_pts.append((tag, x))
+                except Exception as ex:
+                    # every point of the documented box is in the domain: the function must return a number there
+                    C.issue('benchmark-raised', 'oracle', dict(how='bench', name=name, x=x), error=repr(ex)[:100])
+            pts = ok_pts
             lines = []
             for tag, x in pts:
                 lines.append(f'b {name} {enc_bits(x)}')
@@ -240,6 +249,10 @@ def replay(prop, payload):
     np = L['np']
     import opytimizer.math.benchmark as bm
     name, x = payload['name'], payload['x']
+    try:
+        float(np.asarray(getattr(bm, name)(np.array(x, dtype=float))).reshape(-1)[0])
+    except Exception:
+        return True
     xa_ = np.array(x, dtype=float).reshape(-1, 1) if payload.get('column') else np.array(x, dtype=float)
     y = float(np.asarray(getattr(bm, name)(xa_)).reshape(-1)[0])
     try:
